@@ -44,6 +44,12 @@ add("C08", "jaxpr2smt",
     "schedule adequacy is an assumption of part 1 (it is what get_buffer_sizes must provide; part 2 checks it only on the enumerated instances); L in -1..40; floats as reals",
     "DESIGN.md §6 C08")
 
+add("C07", "jaxpr2smt+pysym",
+    "bounded symbolic execution of the jaxpr of utils.apply_window on a symbolic computation graph; z3 decides each receiver step's window == last window+ext consumed messages (oldest first, default padded, ts_sent = sender ts_end[seq_out]); partition step increment; (engine A) to_connected_graph attachment rule; counterexamples replayed on the real functions",
+    "RESTRICTED CLAIM: only the window clause, the step-increment clause and the prune=False attachment rule of C07 are decided (bounded array shapes). That the external supergraph search + to_timings schedule every needed vertex exactly once with producers first is NOT decided (not encodable: networkx/supergraph library code over concrete vertex names).",
+    "input graph satisfies the documented Vertex/Edge contract; floats as reals; shapes <= (W=3,N1=6,N2=4,E=6)",
+    "DESIGN.md §6 C07")
+
 def main():
     checks = []
     for pid in sorted(CHECKS):
